@@ -126,7 +126,8 @@ func c04expected(n *docgen.N, env interpolate.Env) (*docgen.N, error) {
 	case docgen.KMap:
 		out := &docgen.N{K: docgen.KMap}
 		for i, k := range n.Keys {
-			if k == "signature" {
+			if k == "signature" && n.Get("command") != nil {
+				// the signature of a command step (a key named signature anywhere else is ordinary data)
 				out.Keys = append(out.Keys, k)
 				out.Vals = append(out.Vals, n.Vals[i].Clone())
 				continue
@@ -423,6 +424,7 @@ func c04chainRun(w *report.W, seamBound int) {
 	text := `
 "$$X": top1
 "$X": top2
+env: {"$$X": e1, "\\$Z": e2, "$X": e3, plain: "$X"}
 steps:
   - command: c
     env: ` + chain + `
